@@ -24,6 +24,7 @@ var identSpecs = []identSpec{
 	{"I2", "Ada Lovelace", "ADA-L"},
 	{"I3", "bob", "descartes-fan"},
 	{"I4", "Zoé Unrelated", "zoe"},
+	{"I5", "Sean O'Neil", "sean"},
 }
 
 // step is one action through the real cache (each one is committed on its own, so every step is
@@ -77,6 +78,9 @@ func popSpecs() []popSpec {
 		{Op: "new", Bug: "b8", By: "I3", Unix: 1070, Title: "labelled then not", Msg: "quokka zebra"},
 		{Op: "labels", Bug: "b8", By: "I3", Unix: 1071, Add: []string{"prod"}},
 		{Op: "labels", Bug: "b8", By: "I3", Unix: 1072, Remove: []string{"prod"}},
+		{Op: "new", Bug: "b9", By: "I5", Unix: 1080, Title: "can't reproduce", Msg: "lynx", Meta: map[string]string{"origin": "it's:here"}},
+		{Op: "labels", Bug: "b9", By: "I5", Unix: 1081, Add: []string{"it's"}},
+		{Op: "comment", Bug: "b1", By: "I5", Unix: 1082, Msg: "me neither"},
 	}}}}
 
 	// Two replicas work independently (equal Lamport times), with unix stamps chosen so that equal
